@@ -142,9 +142,14 @@ func errKind(err error) string {
 		return "custom"
 	case err == sim.ErrWrapped:
 		return "wrapped"
+	case err == sim.ErrWrappedEOF:
+		return "wrapped-EOF"
 	}
 	if _, ok := err.(*sim.PtrError); ok {
 		return "pointer-typed"
+	}
+	if _, ok := err.(*sim.PtrEOFError); ok {
+		return "pointer-typed-wrapping-EOF"
 	}
 	return fmt.Sprintf("%T", err)
 }
